@@ -10,7 +10,7 @@ from __future__ import annotations
 import z3
 
 from pyvc.engine import Atom, GhostFn, SObj, SSeq, SStr
-from pyvc.gsets import GDict
+from pyvc.gsets import GDict, str_key
 from pyvc.verify import contract
 
 from .opc import BASE_URI, EXT, LOWER, OPTIONS, RELS_URI, GName, GReader, ci_dict, name_key
@@ -311,6 +311,57 @@ def _factory(c):
     cls = getattr(r, "cls", None)
     c.ensures("post.reader_class", z3.If(z3.Not(is_path), cls is _ZipPkgReader, z3.If(isdir, cls is _DirPkgReader, z3.And(iszip, cls is _ZipPkgReader))))
     c.ensures("post.reader_reads_that_file", (r.fields.get("_pkg_file") is arg) or (r.fields.get("_path") is arg))
+
+
+def _replay_dir_contains(model, rec):
+    import os
+    import shutil
+    import tempfile
+
+    from pptx.opc.packuri import PackURI
+    from pptx.opc.serialized import _DirPkgReader
+
+    hold = tempfile.mkdtemp()
+    try:
+        os.makedirs(os.path.join(hold, "real", "ppt"))
+        open(os.path.join(hold, "real", "ppt", "a.xml"), "wb").write(b"<a/>")
+        os.symlink(os.path.join(hold, "real"), os.path.join(hold, "link"))
+        for path_, what in ((os.path.join(hold, "real"), "plain directory"), (os.path.join(hold, "link"), "symbolic link to the directory"), (os.path.join(hold, "real") + os.sep, "trailing separator")):
+            r = _DirPkgReader(path_)
+            if PackURI("/ppt/a.xml") not in r or PackURI("/ppt/b.xml") in r or "/ppt/a.xml" in r:
+                return {"confirmed": True, "witness_class": "dir-contains", "detail": "directory reader on a %s: present member in = %r, absent member in = %r, plain str in = %r"
+                        % (what, PackURI("/ppt/a.xml") in r, PackURI("/ppt/b.xml") in r, "/ppt/a.xml" in r)}
+    finally:
+        shutil.rmtree(hold, ignore_errors=True)
+    return {"confirmed": False, "detail": "directory reader membership follows the files"}
+
+
+@contract("C16", "C16.opc.serialized._DirPkgReader.__contains__", replay=_replay_dir_contains)
+def _dir_contains(c):
+    """a part name is in the directory reader exactly when the file <directory>/<member name> exists, whatever the directory path is
+    (no other condition on the path); anything that is not a part name is not."""
+    from pptx.opc.serialized import _DirPkgReader
+
+    from .opc import MEMBER
+
+    EXISTS = z3.Function("FILE_EXISTS", z3.StringSort(), z3.BoolSort())
+    c.summaries["genericpath:exists"] = lambda it, a, k: EXISTS(str_key(a[0]))
+    c.summaries["posixpath:join"] = lambda it, a, k: SStr([a[0], "/", a[1]]) if isinstance(a[0], str) else SStr(list(a[0].parts) + ["/"] + list(a[1].parts))
+    c.path.assumed.add("os.path.exists is a total boolean function of the path text; posixpath.join(dir, member) = dir + '/' + member for a directory path "
+                       "without trailing separator (as abspath returns) and a relative member name")
+    path = SStr([Atom("dirpath", zs=z3.String("dirpath"))])
+    r = SObj(_DirPkgReader, "dir_reader", _path=path)
+    is_name = c.bool("is_packuri")
+    pn = GName(z3.String("partname"))
+    arg = pn if c.branch(is_name) else SStr([Atom("some_str", zs=z3.String("some_str"))])
+    out = c.run(_DirPkgReader.__contains__, r, arg)
+    if out.raised:
+        c.fails("never_raises", "raised %s" % out.exc)
+        return
+    v = out.value
+    v = v if z3.is_expr(v) else z3.BoolVal(bool(v))
+    want = z3.And(is_name, EXISTS(z3.Concat(z3.String("dirpath"), z3.StringVal("/"), MEMBER(pn.zs))))
+    c.ensures("post.member_iff_file_exists", v == want)
 
 
 @contract("C16", "C16.opc.serialized._ZipPkgReader.__getitem__", replay=_replay_reader)
@@ -872,6 +923,33 @@ def _native_irregular(tier="quick", seed=0):
                     bad = "%s: directory-form package content differs" % dname
             except Exception as e:
                 bad = "%s: directory-form package: %r" % (dname, e)
+            # the same directory named in other ways: trailing separator, through '..', relative to the working directory, through a
+            # symbolic link to the directory, inside a symbolically linked parent, with one member being a link to a file stored elsewhere
+            hold = tempfile.mkdtemp()
+            cwd = os.getcwd()
+            try:
+                os.symlink(d, os.path.join(hold, "link"))
+                os.mkdir(os.path.join(hold, "real"))
+                shutil.copytree(d, os.path.join(hold, "real", "deck"))
+                os.symlink(os.path.join(hold, "real"), os.path.join(hold, "parent"))
+                shutil.copytree(d, os.path.join(hold, "withlink"))
+                mem = os.path.join(hold, "withlink", "ppt", "presentation.xml")
+                shutil.move(mem, os.path.join(hold, "presentation.elsewhere"))
+                os.symlink(os.path.join(hold, "presentation.elsewhere"), mem)
+                spellings = [(d + os.sep, "trailing separator"), (os.path.join(d, "ppt", ".."), "through '..'"), (os.path.join(hold, "link"), "symbolic link to the directory"),
+                             (os.path.join(hold, "parent", "deck"), "directory under a symbolically linked parent"), (os.path.join(hold, "withlink"), "one member is a symbolic link"),
+                             (os.path.relpath(d, hold), "relative path")]
+                os.chdir(hold)
+                for path_, what_ in spellings:
+                    evals[0] += 1
+                    try:
+                        if _summary(Presentation(path_)) != base:
+                            bad = bad or "%s: directory-form package named by %s: content differs" % (dname, what_)
+                    except Exception as e:
+                        bad = bad or "%s: directory-form package named by %s: %r" % (dname, what_, e)
+            finally:
+                os.chdir(cwd)
+                shutil.rmtree(hold, ignore_errors=True)
         finally:
             shutil.rmtree(d, ignore_errors=True)
         rec("C16.native[%s].directory_form" % dname, bad)
